@@ -21,18 +21,11 @@ def TyOKO : Option Ty → Prop
 /-- an identifier: not empty, no white space, no bracket -/
 def IdentOK (s : String) : Prop := WordL s.toList ∧ BrFree s
 
-def isParamDecl : Node → Bool | .paramDecl .. => true | _ => false
-
 /-- the type a parameter declaration prints (`vararg`: the array's element type) -/
 def paramPrinted (t : Ty) (vararg : Bool) : Ty :=
   match vararg, t with
   | true, .param _ _ (a :: _) _ => a
   | _, _ => t
-
-/-- the first type argument of an array type (what `visit_array_expr` prints) -/
-def arrayElem : Ty → Option Ty
-  | .param _ _ (a :: _) _ => some a
-  | _ => none
 
 mutual
 /-- the fragment of programs for which balance is proved, with the hypotheses on its atoms.
@@ -68,45 +61,6 @@ def NodesOK : List Node → Prop
   | x :: xs => NodeOK x ∧ NodesOK xs
 end
 
-mutual
-/-- the hypotheses on the atoms of a program, for EVERY node kind (the full statement's hypothesis):
-identifiers, literals and operators are free of `( ) { } [ ]`, parameter names are words, every
-type that is printed has balanced printed forms, parameters of functions are parameter declarations -/
-def AtomsOK : Node → Prop
-  | .block body _ => AtomsOKL body
-  | .superInst t args => TyOK t ∧ (match args with | some a => AtomsOKL a | none => True)
-  | .classDecl name _ _ fields supers funcs tparams =>
-      BrFree name ∧ AtomsOKL fields ∧ AtomsOKL supers ∧ AtomsOKL funcs ∧ (∀ t ∈ tparams, TyOK t)
-  | .varDecl name ex _ _ inferred => BrFree name ∧ AtomsOK ex ∧ TyOKO inferred
-  | .callArg ex _ => AtomsOK ex
-  | .fieldDecl name t _ _ _ => IdentOK name ∧ TyOK t
-  | .paramDecl name t vararg _ => IdentOK name ∧ TyOK (paramPrinted t vararg)
-  | .funcDecl name params _ inferred body _ _ tparams _ =>
-      BrFree name ∧ AtomsOKL params ∧ (∀ p ∈ params, isParamDecl p = true) ∧ TyOKO inferred ∧
-      (match body with | some b => AtomsOK b | none => True) ∧ (∀ t ∈ tparams, TyOK t)
-  | .lambda _ params _ body _ => AtomsOKL params ∧ (∀ p ∈ params, isParamDecl p = true) ∧ AtomsOK body
-  | .funcRef func recv _ => BrFree func ∧ (match recv with | some r => AtomsOK r | none => True)
-  | .bottom t => TyOKO t
-  | .intC lit _ => BrFree lit
-  | .realC lit _ => BrFree lit
-  | .boolC lit => BrFree lit
-  | .charC lit => BrFree lit
-  | .stringC lit => BrFree lit
-  | .arrayE t _ exprs => TyOK t ∧ TyOKO (arrayElem t) ∧ AtomsOKL exprs
-  | .variable name => BrFree name
-  | .isE ex t _ => AtomsOK ex ∧ TyOK t
-  | .binop _ l r op => AtomsOK l ∧ AtomsOK r ∧ BrFree op
-  | .cond c t f _ => AtomsOK c ∧ AtomsOK t ∧ AtomsOK f
-  | .newE t args _ => TyOK t ∧ AtomsOKL args
-  | .fieldAccess ex field => AtomsOK ex ∧ BrFree field
-  | .call func args recv _ _ _ =>
-      BrFree func ∧ AtomsOKL args ∧ (match recv with | some r => AtomsOK r | none => True)
-  | .assign name ex recv => BrFree name ∧ AtomsOK ex ∧ (match recv with | some r => AtomsOK r | none => True)
-def AtomsOKL : List Node → Prop
-  | [] => True
-  | x :: xs => AtomsOK x ∧ AtomsOKL xs
-end
-
 theorem NodesOK.mem {xs : List Node} (h : NodesOK xs) : ∀ x ∈ xs, NodeOK x := by
   induction xs with
   | nil => intro x hx; cases hx
@@ -123,14 +77,6 @@ theorem NodesOK.of_mem {xs : List Node} (h : ∀ x ∈ xs, NodeOK x) : NodesOK x
   | cons y ys ih =>
     simp only [NodesOK]
     exact ⟨h y (by simp), ih fun x hx => h x (by simp [hx])⟩
-
-/-- the context answers only types with balanced names (hypothesis on the `Env`) -/
-structure EnvOK (e : Env) : Prop where
-  hint : ∀ ns sc names n, TyOKO (typeHint e ns sc names n)
-  hintLast : ∀ ns sc body, TyOKO (typeHintLast e ns sc body)
-  /-- the vararg parameter type of a looked-up function (printed by `visit_func_call`) -/
-  declParams : ∀ ns name dns d, getDecl e ns name = some (dns, d) →
-    ∀ nm pt va df, Node.paramDecl nm pt va df ∈ funcParams d → TyOK pt
 
 /-- the texts the state collects for `class Main` are neutral -/
 def StOK (st : St) : Prop := (∀ d ∈ st.mainChildren, Neutral d) ∧ Neutral st.mainMethod
